@@ -20,6 +20,8 @@ pub struct GenCfg {
     pub fails: bool,
     pub whiles: bool,
     pub strings: bool,
+    /// float32 / float64 values (dyadic literals; + - *, unary minus, comparisons)
+    pub floats: bool,
     /// user identifiers drawn from pools of Go keywords, predeclared names, runtime helper
     /// and compiler-temporary look-alikes (C19)
     pub hostile_names: bool,
@@ -50,6 +52,7 @@ impl GenCfg {
             fails: true,
             whiles: true,
             strings: true,
+            floats: true,
             hostile_names: false,
             focus: Focus::None,
         }
@@ -355,8 +358,10 @@ impl<'a, 'd> Gen<'a, 'd> {
             if comp && self.cfg.containers { 5 } else { 0 },           // ref
             if comp && self.cfg.containers { 4 } else { 0 },           // vec
             if comp && self.cfg.closures { if self.cfg.focus == Focus::Closures { 16 } else { 6 } } else { 0 }, // fn
+            if self.cfg.floats { 5 } else { 0 },                       // float
         ];
         match self.d.weighted(&w) {
+            10 => Ty::Float(self.d.bool()),
             0 => Ty::Int(self.int_kind()),
             1 => Ty::Bool,
             2 => Ty::Str,
@@ -488,6 +493,7 @@ impl<'a, 'd> Gen<'a, 'd> {
             Ty::Unit => Expr::Unit,
             Ty::Bool => Expr::Bool(true),
             Ty::Int(k) => Expr::Int(*k, 1, *k != IK::I32),
+            Ty::Float(f) => Expr::Float(*f, 1.5),
             Ty::Str => Expr::Str("s".into()),
             Ty::Tuple(ts) => Expr::Tuple(ts.iter().map(|t| self.const_leaf(t)).collect()),
             Ty::Array(t, n) => Expr::ArrayLit((0..*n).map(|_| self.const_leaf(t)).collect()),
@@ -683,10 +689,32 @@ impl<'a, 'd> Gen<'a, 'd> {
             Ty::Bool => Expr::Call(Callee::Builtin(Builtin::BoolToString), vec![e]),
             Ty::Int(k) => Expr::Call(Callee::Builtin(Builtin::IntToString(*k)), vec![e]),
             Ty::Str => e,
+            // float*_to_string prints Go's bad-verb text (KF-45): a float is shown through comparisons
+            Ty::Float(f) => {
+                let f = *f;
+                let v = self.fresh_named("fl", t.clone());
+                let cmp = |c: f64| {
+                    Expr::Call(
+                        Callee::Builtin(Builtin::BoolToString),
+                        vec![Expr::Bin(BinOp::Lt, Box::new(Expr::Var(v)), Box::new(Expr::Float(f, c)))],
+                    )
+                };
+                let parts = vec![Expr::Str("f".into()), cmp(0.0), cmp(1.0), cmp(2.5), cmp(8.0)];
+                self.scope.pop();
+                Expr::Match(Box::new(e), vec![(Pat::Var(v), Self::concat(parts))])
+            }
             Ty::Param(_) => Expr::Str("?".into()),
             Ty::Fn(ps, r) if !self.esc_ok => {
                 // call it in place (the closure must not be passed around)
                 let args: Vec<Expr> = ps.iter().map(|t| self.const_leaf(t)).collect();
+                if matches!(e, Expr::Field(..)) {
+                    // `x.f(..)` is a method call: a function-typed field is bound to a name first
+                    let g = self.fresh_named("g", t.clone());
+                    self.scope.pop();
+                    let call = Expr::Call(Callee::Val(Box::new(Expr::Var(g))), args);
+                    let s = self.show(r, call);
+                    return Expr::Match(Box::new(e), vec![(Pat::Var(g), Self::concat(vec![Expr::Str("fn:".into()), s]))]);
+                }
                 let call = Expr::Call(Callee::Val(Box::new(e)), args);
                 let s = self.show(r, call);
                 Self::concat(vec![Expr::Str("fn:".into()), s])
@@ -912,6 +940,10 @@ impl<'a, 'd> Gen<'a, 'd> {
             Ty::Unit => Expr::Unit,
             Ty::Bool => Expr::Bool(self.d.bool()),
             Ty::Int(k) => self.int_lit(*k),
+            Ty::Float(f) => {
+                const FL: [f64; 10] = [0.0, 0.5, 1.0, 1.5, 2.0, 2.25, 3.0, 4.0, 0.125, 8.0];
+                Expr::Float(*f, FL[self.d.below(FL.len())])
+            }
             Ty::Str => self.str_lit(),
             Ty::Tuple(ts) => Expr::Tuple(ts.iter().map(|t| self.leaf(t)).collect()),
             Ty::Array(et, n) => Expr::ArrayLit((0..*n).map(|_| self.leaf(et)).collect()),
@@ -1094,9 +1126,13 @@ impl<'a, 'd> Gen<'a, 'd> {
 
     fn cmp_expr(&mut self, fuel: i32) -> Expr {
         let k = if self.cfg.strings && self.d.chance(40) { None } else { Some(self.int_kind()) };
-        let t = match k {
-            Some(k) => Ty::Int(k),
-            None => Ty::Str,
+        let t = if self.cfg.floats && self.d.chance(30) {
+            Ty::Float(self.d.bool())
+        } else {
+            match k {
+                Some(k) => Ty::Int(k),
+                None => Ty::Str,
+            }
         };
         let op = *[BinOp::Lt, BinOp::Gt, BinOp::Le, BinOp::Ge, BinOp::Eq, BinOp::Ne]
             .get(self.d.below(6))
@@ -1270,6 +1306,26 @@ impl<'a, 'd> Gen<'a, 'd> {
                         Expr::Call(Callee::Builtin(Builtin::StringLen), vec![s])
                     }
                     _ => self.container_read(t, fuel).unwrap_or_else(|| self.leaf(t)),
+                }
+            }
+            Ty::Float(f) => {
+                self.label("float");
+                match self.d.below(5) {
+                    0 if self.d.bool() => {
+                        let a = self.expr(t, fuel - 1);
+                        Expr::Un(UnOp::Neg, Box::new(a))
+                    }
+                    _ => {
+                        let op = *[BinOp::Add, BinOp::Sub, BinOp::Mul].get(self.d.below(3)).unwrap();
+                        let a = self.expr(t, fuel - 1);
+                        let b = self.expr(t, fuel - 1);
+                        // two literals would be folded by Go as exact constants (see KF-19)
+                        if matches!(a, Expr::Float(..)) && matches!(b, Expr::Float(..)) && self.gates.gated("const:both-literal") {
+                            return a;
+                        }
+                        let _ = f;
+                        Expr::Bin(op, Box::new(a), Box::new(b))
+                    }
                 }
             }
             Ty::Str => match self.d.below(5) {
